@@ -17,8 +17,8 @@
     vector and between two vectors; `reserve`/`reserve_exact`/`shrink_to_fit`/`shrink_to`; raw-parts round
     trips; `set_len` over freshly written spare capacity; the caller dropping the values it holds;
     dropping a vector.
-  The only restrictions (`Core`) are on *arguments*: replacement and pushed values are owning wrappers or
-  raw values (not lazy clones of elements of another vector), and the items of a drain/splice and the
+  `push`/`insert` also take lazy clones of another vector's elements. The only restrictions (`Core`) are on
+  *arguments*: the replacement values of a `splice` are owning wrappers or raw values, and the items of a drain/splice and the
   handles go to the sinks listed above (not `lazy_clone().push` ×k, not `swap` through a handle, drained
   items are not moved into another vector). For those the single-step theorems of C01/C06/C09 and the
   differential correspondence apply. `Valid` states what the type system, the borrow checker and the
@@ -33,7 +33,7 @@
       reads or writes outside the capacity, never reads an uninitialised / moved-out slot, never uses
       a stale element pointer (C05: the model's `ub` outcomes).
 -/
-import AnyVecModel.Proofs.HistMisc
+import AnyVecModel.Proofs.HistSwap
 namespace AnyVec
 namespace Hist
 open World
@@ -42,13 +42,13 @@ open World
 def Core : Op → Prop
   | .new _ _ _ => True
   | .withCap _ bk _ _ => VecSt.resizable bk = true
-  | .push _ s => s.Plain
-  | .insert _ _ s => s.Plain
+  | .push _ _ => True
+  | .insert _ _ _ => True
   | .tpush _ => True
   | .tinsert _ _ => True
-  | .pop _ k => k.Core ∨ ∃ u, k.MoveTo u
-  | .remove _ _ k => k.Core ∨ ∃ u, k.MoveTo u
-  | .swapRemove _ _ k => k.Core ∨ ∃ u, k.MoveTo u
+  | .pop _ _ => True
+  | .remove _ _ _ => True
+  | .swapRemove _ _ _ => True
   | .tpop _ => True
   | .tremove _ _ => True
   | .tswapRemove _ _ => True
@@ -70,6 +70,7 @@ def Core : Op → Prop
   | .drain _ _ _ _ eats _ => ∀ p ∈ eats, p.2.Core
   | .clone _ => True
   | .lazyDc _ _ _ _ => True
+  | .iterClone _ _ _ => True
   | .wswap _ _ _ => True
   | .tassign _ _ => True
   | .swapb _ _ _ => True
@@ -92,13 +93,13 @@ only for `Cloneable` vectors, raw parts only for backends with `MemRawParts`; an
 contracts of the script's own unsafe calls demand (`set_len` within the capacity over initialised
 slots, in-place byte swaps of two existing elements) -/
 def Valid (vs : List VecSt) : Op → Prop
-  | .push v _ => liveVec vs v
-  | .insert v _ _ => liveVec vs v
+  | .push v s => liveVec vs v ∧ ∀ u i dp, s = .lazyRef u i dp → v ≠ u ∧ liveVec vs u
+  | .insert v _ s => liveVec vs v ∧ ∀ u i dp, s = .lazyRef u i dp → v ≠ u ∧ liveVec vs u
   | .tpush v => liveVec vs v
   | .tinsert v _ => liveVec vs v
-  | .pop v k => liveVec vs v ∧ ∀ u, k.MoveTo u → v ≠ u ∧ liveVec vs u
-  | .remove v _ k => liveVec vs v ∧ ∀ u, k.MoveTo u → v ≠ u ∧ liveVec vs u
-  | .swapRemove v _ k => liveVec vs v ∧ ∀ u, k.MoveTo u → v ≠ u ∧ liveVec vs u
+  | .pop v k => liveVec vs v ∧ k.Valid vs v
+  | .remove v _ k => liveVec vs v ∧ k.Valid vs v
+  | .swapRemove v _ k => liveVec vs v ∧ k.Valid vs v
   | .tpop v => liveVec vs v
   | .tremove v _ => liveVec vs v
   | .tswapRemove v _ => liveVec vs v
@@ -118,6 +119,7 @@ def Valid (vs : List VecSt) : Op → Prop
   | .drain v _ _ _ _ _ => liveVec vs v
   | .clone v => liveCloneable vs v
   | .lazyDc v _ _ _ => liveVec vs v
+  | .iterClone v _ _ => liveVec vs v
   | .wswap v _ _ => liveVec vs v
   | .tassign v _ => liveVec vs v
   | .swapb v i j => ∃ d, vs[v]? = some d ∧ d.live = true ∧ i < d.len ∧ j < d.len
@@ -129,26 +131,33 @@ def Valid (vs : List VecSt) : Op → Prop
   | .splice v _ _ _ _ _ _ _ => liveVec vs v
   | _ => True
 
-theorem sinkOk {vs : List VecSt} {v : Nat} {k : Sink} (hc : k.Core ∨ ∃ u, k.MoveTo u)
-    (hv : ∀ u, k.MoveTo u → v ≠ u ∧ liveVec vs u) : k.Ok vs v := by
-  rcases hc with hc | ⟨u, hm⟩
-  · exact Or.inl hc
-  · obtain ⟨hne, du, h1, h2⟩ := hv u hm
-    exact Or.inr ⟨u, du, hm, hne, h1, h2⟩
-
 /-- one core step of the library from any world satisfying the invariant, under any fault state -/
 theorem step_inv (cfg : Cfg) (op : Op) (w : World) (h : w.Inv) (hc : Core op) (hv : Valid w.vecs op) :
     (step cfg op w).1.Inv ∧ (step cfg op w).2.notUb := by
   cases op with
   | new ty bk c => exact step_new_inv cfg w ty bk c h
   | withCap ty bk c n => exact step_withCap_inv cfg w ty bk c n h hc
-  | push v s => obtain ⟨d, h1, h2⟩ := hv; exact step_push_inv cfg w v s d h h1 h2 hc
-  | insert v i s => obtain ⟨d, h1, h2⟩ := hv; exact step_insert_inv cfg w v i s d h h1 h2 hc
+  | push v s =>
+    obtain ⟨⟨d, h1, h2⟩, h3⟩ := hv
+    cases s with
+    | wrapper ty => exact step_push_inv cfg w v _ d h h1 h2 trivial
+    | raw ty => exact step_push_inv cfg w v _ d h h1 h2 trivial
+    | lazyRef u i dp =>
+      obtain ⟨hne, du, h4, h5⟩ := h3 u i dp rfl
+      exact step_push_lazy_inv cfg w v u i dp d du h hne h1 h2 h4 h5
+  | insert v j s =>
+    obtain ⟨⟨d, h1, h2⟩, h3⟩ := hv
+    cases s with
+    | wrapper ty => exact step_insert_inv cfg w v j _ d h h1 h2 trivial
+    | raw ty => exact step_insert_inv cfg w v j _ d h h1 h2 trivial
+    | lazyRef u i dp =>
+      obtain ⟨hne, du, h4, h5⟩ := h3 u i dp rfl
+      exact step_insert_lazy_inv cfg w v j u i dp d du h hne h1 h2 h4 h5
   | tpush v => obtain ⟨d, h1, h2⟩ := hv; exact step_tpush_inv cfg w v d h h1 h2
   | tinsert v i => obtain ⟨d, h1, h2⟩ := hv; exact step_tinsert_inv cfg w v i d h h1 h2
-  | pop v k => obtain ⟨⟨d, h1, h2⟩, h3⟩ := hv; exact step_pop_inv' cfg w v k d h h1 h2 (sinkOk hc h3)
-  | remove v i k => obtain ⟨⟨d, h1, h2⟩, h3⟩ := hv; exact step_remove_inv' cfg w v i k d h h1 h2 (sinkOk hc h3)
-  | swapRemove v i k => obtain ⟨⟨d, h1, h2⟩, h3⟩ := hv; exact step_swapRemove_inv' cfg w v i k d h h1 h2 (sinkOk hc h3)
+  | pop v k => obtain ⟨⟨d, h1, h2⟩, h3⟩ := hv; exact step_pop_any cfg w v k d h h1 h2 h3
+  | remove v i k => obtain ⟨⟨d, h1, h2⟩, h3⟩ := hv; exact step_remove_any cfg w v i k d h h1 h2 h3
+  | swapRemove v i k => obtain ⟨⟨d, h1, h2⟩, h3⟩ := hv; exact step_swapRemove_any cfg w v i k d h h1 h2 h3
   | tpop v => obtain ⟨d, h1, h2⟩ := hv; exact step_tpop_inv cfg w v d h h1 h2
   | tremove v i => obtain ⟨d, h1, h2⟩ := hv; exact step_tremove_inv cfg w v i d h h1 h2
   | tswapRemove v i => obtain ⟨d, h1, h2⟩ := hv; exact step_tswapRemove_inv cfg w v i d h h1 h2
@@ -181,6 +190,7 @@ theorem step_inv (cfg : Cfg) (op : Op) (w : World) (h : w.Inv) (hc : Core op) (h
   | setLenSpare v k t => obtain ⟨d, h1, h2, h3⟩ := hv; exact step_setLenSpare_inv cfg w v k t d h h1 h2 h3
   | rawrt v => obtain ⟨d, h1, h2, h3⟩ := hv; exact step_rawrt_inv cfg w v d h h1 h2 h3
   | rawparts v => obtain ⟨d, h1, h2, h3⟩ := hv; exact step_rawparts_inv cfg w v d h h1 h2 h3
+  | iterClone v pre post => obtain ⟨d, h1, h2⟩ := hv; exact step_iterClone_inv cfg w v pre post d h h1 h2
   | lazyDc v i dp ty => obtain ⟨d, h1, h2⟩ := hv; exact step_lazyDc_inv cfg w v i dp ty d h h1 h2
 
 /-- the caller destroying the raw values the library refused, at the end of a script step -/
@@ -275,9 +285,10 @@ def w5 : World := (runStep cfg0 (.remove 0 0 .drop) (some 1) w4).1
 def w6 : World := (runStep cfg0 (.tpop 0) none w4).1
 
 theorem reach_w4 : Reach cfg0 w4 :=
-  .step _ _ _ (.step _ _ _ (.step _ _ _ (.step _ _ _ .init trivial trivial) trivial ⟨_, rfl, rfl⟩) trivial ⟨_, rfl, rfl⟩)
+  .step _ _ _ (.step _ _ _ (.step _ _ _ (.step _ _ _ .init trivial trivial) trivial
+      ⟨⟨_, rfl, rfl⟩, fun _ _ _ hh => by cases hh⟩) trivial ⟨⟨_, rfl, rfl⟩, fun _ _ _ hh => by cases hh⟩)
     trivial ⟨_, rfl, rfl⟩
-theorem reach_w5 : Reach cfg0 w5 := .step _ _ _ reach_w4 (Or.inl trivial) ⟨⟨_, rfl, rfl⟩, fun _ hm => hm.elim⟩
+theorem reach_w5 : Reach cfg0 w5 := .step _ _ _ reach_w4 trivial ⟨⟨_, rfl, rfl⟩, trivial⟩
 theorem reach_w6 : Reach cfg0 w6 := .step _ _ _ reach_w4 trivial ⟨_, rfl, rfl⟩
 
 /-- the destructor of element 0 panicked inside `remove(0)`: element 0 is destroyed, the tail is leaked -/
